@@ -53,14 +53,18 @@ func snapDigest(s *abci.Snapshot) string {
 
 // stateSync plays Tendermint's part of a state sync at the current height: the snapshot node A took at c.h is offered to a
 // blank node B chunk by chunk; B then replaces A for the rest of the scenario (the ideal twin keeps executing every block).
-func (c *runCtx) stateSync() {
+func (c *runCtx) stateSync(back int) {
 	a := c.nd
-	rec := c.rec("Restored", c.h)
+	if back > 1 || (back == 1 && (c.last == nil || c.last.h != c.h)) {
+		back = 0
+	}
+	h0 := c.h - uint64(back)
+	rec := c.rec("Restored", h0)
 	c.twinObs(rec)
 	var sa *abci.Snapshot
 	res := guard(func() {
-		a.App.VerifWaitSnapshots()
-		sa = snapshotAt(a, c.h)
+		a.waitSnapshots(true)
+		sa = snapshotAt(a, h0)
 	})
 	if res.Panic != "" || sa == nil {
 		rec.Kind = "BuildError"
@@ -74,7 +78,7 @@ func (c *runCtx) stateSync() {
 		if c.id != nil && !c.idead {
 			ires := guard(func() {
 				c.id.App.VerifWaitSnapshots()
-				rec.Ideal.Snap = snapDigest(snapshotAt(c.id, c.h))
+				rec.Ideal.Snap = snapDigest(snapshotAt(c.id, h0))
 			})
 			if ires.Panic != "" {
 				rec.Ideal.Panic = ires.Panic
@@ -114,11 +118,20 @@ func (c *runCtx) stateSync() {
 		if info, ires := b.Info(); ires.Panic == "" {
 			rec.Hash = hex.EncodeToString(info.LastBlockAppHash)
 			rec.Resp.Gas = info.LastBlockHeight
+			if rec.Obs != nil {
+				rec.Obs.Hash, rec.Obs.Height = rec.Hash, info.LastBlockHeight
+			}
 		}
-		c.infoObs(rec)
 		ar := ReadAppRecords(b.Disk)
 		rec.App = &ar
-		if rec.Obs != nil {
+		if rec.Obs != nil && back == 1 {
+			// the twin is one block ahead: the reference values of height h0 are the producer's own commit record of h0
+			rec.Ideal.Height, rec.Ideal.Hash = int64(h0), c.hashAt[h0]
+			rec.Obs.Vals, rec.Obs.Emission, rec.Obs.Versions, rec.Obs.Price = ar.Vals, ar.Emission, digest(ar.Versions), digest(ar.Price)
+			rec.Ideal.Vals, rec.Ideal.Emission, rec.Ideal.Versions, rec.Ideal.Price = rec.Obs.Vals, rec.Obs.Emission, rec.Obs.Versions, rec.Obs.Price
+		}
+		if rec.Obs != nil && back == 0 {
+			c.infoObs(rec)
 			rec.Obs.Vals = ar.Vals
 			rec.Obs.Emission = ar.Emission
 			rec.Obs.Versions = digest(ar.Versions)
@@ -131,6 +144,34 @@ func (c *runCtx) stateSync() {
 	}
 	c.r.emit(rec)
 	c.r.Stats["statesyncs"]++
+	if back == 1 && !c.dead {
+		// the restored node catches up: Tendermint delivers the block the producer had already committed
+		bb := c.last
+		rp := c.rec("Replayed", bb.h)
+		rp.Replay = true
+		c.twinObs(rp)
+		r2 := b.Begin(bb.req)
+		for _, raw := range bb.raws {
+			if r2.Panic != "" {
+				break
+			}
+			_, r2 = b.Deliver(raw)
+		}
+		if r2.Panic == "" {
+			_, r2 = b.End(bb.h)
+		}
+		var cr abci.ResponseCommit
+		if r2.Panic == "" {
+			cr, r2 = b.Commit()
+		}
+		if !c.fail(rp, r2) {
+			rp.Hash = hex.EncodeToString(cr.Data)
+			c.infoObs(rp)
+			c.diskProjection(rp)
+			c.proj(rp, bb.h)
+		}
+		c.r.emit(rp)
+	}
 }
 
 // RoundTrip is what an export/import round trip is judged on (C11): the exported state in the order-free form in which
